@@ -11,19 +11,19 @@ import (
 
 func fmtRules() []*Rule {
 	return []*Rule{
-		{ID: "FMT-spill", Props: []string{"C14", "C01", "C02"}, Min: 10,
+		{ID: "FMT-spill", Props: []string{"C14", "C01", "C02", "C03", "C04", "C13"}, Min: 10,
 			Doc: "local-payload computation equals fileformat2 §1.6: X = U−35 (table leaf) / ((U−12)·64/255)−23 (index cells, both kinds identical), M = ((U−12)·32/255)−23, K = M+((P−M) mod (U−4)), choice P≤X→P, K≤X→K, else M; overflow pointer = 4 bytes after the local part",
 			Run: runSpill},
-		{ID: "FMT-overflow", Props: []string{"C14", "C01", "C02", "C08", "C13", "C03", "C18"}, Min: 4,
+		{ID: "FMT-overflow", Props: []string{"C14", "C01", "C02", "C08", "C13", "C03", "C18", "C04"}, Min: 4,
 			Doc: "overflow page layout: next pointer = big-endian bytes 0..3, content from byte 4 to the end of the page; whole pages are appended (so the append cannot write into the cached page's spare capacity); result cut to the declared length",
 			Run: runOverflow},
-		{ID: "REC-table", Props: []string{"C14", "C01"}, Min: 14,
+		{ID: "REC-table", Props: []string{"C14", "C01", "C02", "C03", "C04", "C13"}, Min: 14,
 			Doc: "serial-type table of parseRecord: per type, length guard = bytes decoded = advance of the body = fileformat2 §2.1, sign-extension through a signed type of exactly that width, constants for types 8/9, 10/11 rejected, (N−12)/2 and (N−13)/2 for blobs and text",
 			Run: runRecTable},
-		{ID: "SIGN", Props: []string{"C14"}, Min: 2,
+		{ID: "SIGN", Props: []string{"C14", "C01", "C02", "C03", "C04", "C13"}, Min: 2,
 			Doc: "readTwos24/48: bytes OR-ed big-endian with shifts 8·k, sign mask 1<<(NN−1) and subtrahend 1<<NN consistent with NN = 8·(bytes read)",
 			Run: runSign},
-		{ID: "VARINT", Props: []string{"C14", "C04"}, Min: 4,
+		{ID: "VARINT", Props: []string{"C14", "C04", "C01", "C02", "C03", "C13"}, Min: 4,
 			Doc: "readVarint loop-body table: bytes 1..8 contribute 7 bits and stop when the high bit is clear, the 9th byte contributes all 8 bits and always stops, count = bytes consumed, short input ⇒ (0,−1); the 9th-byte test takes precedence over the high-bit test",
 			Run: runVarint},
 	}
